@@ -15,6 +15,7 @@ from pyvc.sym import (I, B, A, A2, iv, add, sub, lit, fresh, fresh_seq, Seq, Tup
 Z3_TIMEOUT_MS = int(os.environ.get("PYVC_Z3_TIMEOUT_MS", "20000"))
 CVC5_TIMEOUT_S = int(os.environ.get("PYVC_CVC5_TIMEOUT_S", "40"))
 FEAS_TIMEOUT_MS = 1500
+RELEVANCY0_FIRST = os.environ.get("PYVC_RELEVANCY0_FIRST", "1") == "1"
 
 
 class Unsupported(Exception):
@@ -141,6 +142,9 @@ class Exec:
         if z3.is_true(g):
             self.results.append(Result(full, "discharged", "simplify", 0.0, line))
             return
+        if any(goal.eq(p_) for p_ in st.pc):
+            self.results.append(Result(full, "discharged", "assumption", 0.0, line))       # the goal is literally one of the hypotheses
+            return
         asserts = self._query(st, [z3.Not(goal)])
         t = time.time()
         r, s = None, None
@@ -154,7 +158,7 @@ class Exec:
         # verdict does not flip with the scheduling of fresh names; a second and third seed are tried before cvc5.
         for attempt in range(1 + self.retries):
             s = make_solver(self.z3_timeout_ms if attempt or not self.retries else min(self.z3_timeout_ms, 5000))
-            if attempt == 1:
+            if attempt == (0 if RELEVANCY0_FIRST else 1):
                 s.set("smt.relevancy", 0)        # E-matching on every ground term, not only the 'relevant' ones
             elif attempt:
                 s.set("random_seed", attempt)
@@ -1244,6 +1248,9 @@ class Exec:
             st.env[nme] = shapes.fresh_of(self, st, shape, nme)
             self.ghost_names.add(nme)
         for nme in names:
+            if nme in st.env:          # declared as a ghost (spec-only) input of the harness
+                self.param_objects[nme] = st.env[nme]
+                continue
             if nme == "self":
                 st.env["self"] = shapes.make_self(self, st)
                 continue
